@@ -418,14 +418,14 @@ fn gen_c12(cfg: &GenCfg, rng: &mut Rng, w: &mut dyn Write, kind: &str) {
                 writeln!(w, "order {}", order_str(&o2)).unwrap();
                 for j in 0..6 {
                     writeln!(w, "op tr{}_{} {} f{} f{}", f, j, rng.pick(&BIN_OPS), rng.below(nf), rng.below(nf)).unwrap();
-                    writeln!(w, "satcount tr{}_{} {} nat cache=shared", f, j, n).unwrap();
+                    writeln!(w, "satcount tr{}_{} {} nat cache=sharedall", f, j, n).unwrap();
                     writeln!(w, "satcount tr{}_{} {} u64 cache=shared", f, j, n).unwrap();
                 }
             }
             if f % 32 == 31 {
                 // recycle node ids: drop temporaries, collect, rebuild
                 writeln!(w, "op tmp{} xor f{} f{}", f, f, (f * 7 + 3) % nf).unwrap();
-                writeln!(w, "satcount tmp{} {} nat cache=shared", f, n).unwrap();
+                writeln!(w, "satcount tmp{} {} nat cache=sharedall", f, n).unwrap();
                 writeln!(w, "drop tmp{}", f).unwrap();
                 writeln!(w, "gc").unwrap();
             }
@@ -991,7 +991,7 @@ fn gen_c08(cfg: &GenCfg, rng: &mut Rng, w: &mut dyn Write, kind: &str) {
             // a model-count cache kept across the reorderings (they recycle node ids, so the
             // manager must invalidate it: `Manager::reorder` bumps the collection counter)
             for _ in 0..3 {
-                writeln!(w, "satcount {} {} nat cache=shared", rng.pick(&pool), n).unwrap();
+                writeln!(w, "satcount {} {} nat cache={}", rng.pick(&pool), n, if rng.chance(1, 2) { "shared" } else { "sharedall" }).unwrap();
             }
             for j in 0..4 {
                 let name = format!("p{}_{}", s, j);
